@@ -61,7 +61,7 @@ theorem C17_value_Min (L : Layout) (i : ℕ) (a b : Ex ℝ) (xa xb : SEx ℝ)
       ∀ ρ, eval realF ρ e = (if eval realF ρ xa ≤ eval realF ρ xb then eval realF ρ xa else eval realF ρ xb) := by
   simp only [Generated.minRule, Ex.lower, ha, hb, bind, Except.bind, lowersTo]
   intro ρ
-  simp only [eval, b2a, rf_lt, rf_add, rf_mul, rf_ofInt, rf_one, rf_zero]
+  simp only [eval, evalFn1, b2a, rf_lt, rf_add, rf_sub, rf_mul, rf_ofInt, rf_one, rf_zero]   -- covers (1 − [x<y]) and Not([x<y])
   by_cases h : eval realF ρ xa < eval realF ρ xb
   · simp [h, le_of_lt h]
   · by_cases h' : eval realF ρ xa = eval realF ρ xb
